@@ -40,6 +40,8 @@ EXPECT = {
     "seed-C17-k": ["C17"], "seed-C18-k": ["C18"], "seed-C19-k": ["C19"],
     "seed-C01-l": ["C01"], "seed-C02-l": ["C02", "C05"], "seed-C03-l": ["C03"], "seed-C04-l": ["C04"], "seed-C05-l": ["C05", "C03"], "seed-C08-l": ["C08"],
     "seed-C12-l": ["C12", "C02"], "seed-C13-l": ["C13"], "seed-C16-l": ["C16", "C01"],
+    "seed-C06-m": ["C06"], "seed-C07-m": ["C07"], "seed-C09-m": ["C09"], "seed-C10-m": ["C10"], "seed-C11-m": ["C11", "C02"], "seed-C14-m": ["C14"],
+    "seed-C15-m": ["C15"], "seed-C17-m": ["C17", "C14"], "seed-C19-m": ["C19"],
 }
 
 
